@@ -846,6 +846,23 @@ impl World {
 			self.out.violate("C10", &o, step, msg);
 			return;
 		}
+		// profile `chainstyle` decides C11: what the on-chain oracles (validity of broadcasts, balances
+		// that drain, conservation) report there happened under reorganisations and mixed delivery
+		// styles - "a reorganisation shallower than that depth fully retracts the effects of the
+		// transactions it removes"
+		if self.cfg.profile == "chainstyle" && property == "C07" {
+			let o = format!("C11/{}", oracle);
+			self.out.violate("C11", &o, step, msg);
+			return;
+		}
+		// profile `asyncpersist` decides C09: "once completions arrive, in any order and after any
+		// delay, exactly the held messages are released" - a payment or forward that never completes
+		// there is a held message (or fail-back) that was never released
+		if self.cfg.profile == "asyncpersist" && matches!(property, "C02" | "C03" | "C04") {
+			let o = format!("C09/{}", oracle);
+			self.out.violate("C09", &o, step, msg);
+			return;
+		}
 		self.out.violate(property, oracle, step, msg);
 	}
 
